@@ -363,7 +363,7 @@ for _n in ['gamma', 'rgamma', 'loggamma', 'factorial', 'fac2', 'digamma', 'harmo
       cost=2 if _n in ('barnesg', 'superfac', 'hyperfac') else 1,
       maxprec=400 if _n in ('barnesg', 'superfac', 'hyperfac') else 1200)
 E('gamma', 'b', key='gamma_big', fam='C', tol=8)
-E('gamma', 'P', key='gamma_vhi', fam='C', tol=8, cost=3, maxprec=3700)   # Taylor-coefficient cache above 1000 bits (x1.2 reuse window)
+E('gamma', 'P', key='gamma_vhi', fam='C', tol=8, cost=2, maxprec=3700)   # Taylor-coefficient cache above 1000 bits (x1.2 reuse window)
 E('rgamma', 'P', key='rgamma_vhi', fam='C', tol=8, cost=3, maxprec=3700)
 E('gamma', 'N:20,150,1000', key='gamma_int', fam='C', tol=8)
 E('factorial', 'N:150,1000', key='factorial_int', fam='C', tol=8)
